@@ -9,13 +9,14 @@ import concurrent.futures as cf
 import glob, json, os, shutil, subprocess, sys, tempfile
 
 VERIF = os.path.dirname(os.path.dirname(os.path.abspath(__file__)))
+REPO = os.environ.get("SELFTEST_REPO", "/repo")
 ALL = ["C01", "C03", "C04", "C05", "C06", "C07", "C08", "C09", "C10", "C11", "C12", "C13", "C14", "C15", "C16", "C17", "C18", "C19", "C20"]
 DOC_MISS = {"C09-endstringcommented-guard-lost", "C09c-qualified-macro-special-case-2024", "C08c-leading-blank-skip-only-strips-bare-newlines", "C19c-hunk-body-tracking-miscounts-stripped-blank-context"}
 
 
 def scratch(patch=None, reverse_commit=None):
     d = tempfile.mkdtemp(prefix="selftest-")
-    subprocess.run(["rsync", "-a", "--exclude", "target", "--exclude", ".git", "/repo/", d + "/"], check=True)
+    subprocess.run(["rsync", "-a", "--exclude", "target", "--exclude", ".git", REPO + "/", d + "/"], check=True)
     if patch:
         r = subprocess.run(["git", "apply", "--whitespace=nowarn", patch], cwd=d, capture_output=True)
         if r.returncode != 0:
@@ -24,7 +25,7 @@ def scratch(patch=None, reverse_commit=None):
                 shutil.rmtree(d)
                 return None
     if reverse_commit:
-        diff = subprocess.run(["git", "-C", "/repo", "show", reverse_commit, "--", "src"], capture_output=True).stdout
+        diff = subprocess.run(["git", "-C", REPO, "show", reverse_commit, "--", "src"], capture_output=True).stdout
         r = subprocess.run(["git", "apply", "-R", "--whitespace=nowarn"], input=diff, cwd=d, capture_output=True)
         if r.returncode != 0:
             shutil.rmtree(d)
